@@ -5,7 +5,7 @@ rnd=$1; tag=$2
 while true; do
   for d in /tmp/$rnd/C*-out; do
     p=$(basename $d -out)
-    for m in m1 m2; do
+    for m in m1 m2 m3 m4; do
       if [ -f $d/$m.diff ] && [ -f $d/${m}_demo_test.go ] && [ -f $d/NOTES.md ] && [ ! -f seeded/$p-$tag$m/meta.json ]; then
         python3 tools/seed.py $p $m --round $rnd > /tmp/seedproc-$rnd-$p-$m.log 2>&1
         tail -1 /tmp/seedproc-$rnd-$p-$m.log
